@@ -17,6 +17,14 @@ pub const PROPERTY: &str = "C23";
 const AS_LIMIT: u64 = 4 << 30;
 const FSIZE_LIMIT: u64 = 1 << 30;
 const MAX_PANICS_PER_RUN: usize = 6;
+/// CPU-time budget of one exercise step / decoder item, and of the whole (valid-input) build
+const STEP_TIMEOUT_DEFAULT_S: u32 = 20;
+const BUILD_TIMEOUT_S: u32 = 30;
+
+/// Step budget; `VSIM_DEBUG=<seconds>` overrides it (triage aid: is a "hang" merely slow?).
+pub fn step_timeout_s() -> u32 {
+    std::env::var("VSIM_DEBUG").ok().and_then(|v| v.parse::<u32>().ok()).filter(|v| *v > 0).unwrap_or(STEP_TIMEOUT_DEFAULT_S)
+}
 
 pub struct CorruptSim;
 
@@ -35,6 +43,17 @@ fn setup_child(env_seed: u64) {
     simdisk::reset_hash_counter();
     simdisk::install_clock_entropy(env_seed);
     guard::install_panic_hook();
+    crate::trap::init(&pool::child_scratch().join("result.json"), step_timeout_s());
+}
+
+/// Real monotonic time in ms (the libc clock is simulated; this asks the kernel directly).
+pub fn real_ms() -> u64 {
+    let mut ts = libc::timespec { tv_sec: 0, tv_nsec: 0 };
+    // SAFETY: plain syscall writing into our timespec.
+    unsafe {
+        libc::syscall(libc::SYS_clock_gettime, libc::CLOCK_MONOTONIC, &mut ts as *mut libc::timespec);
+    }
+    ts.tv_sec as u64 * 1000 + ts.tv_nsec as u64 / 1_000_000
 }
 
 fn scratch_root() -> PathBuf {
@@ -130,8 +149,8 @@ fn gen_file_faults(rng: &mut Rng, dbdir: &Path, old: &Path, out: &mut RunOutcome
             "table" => 24,
             "index" => 22,
             "toast" => 10,
-            "catalog" => 14,
-            "meta" => 8,
+            "catalog" => 8,
+            "meta" => 4,
             "wal" => 14,
             "systable" => 4,
             _ => 2,
@@ -205,12 +224,30 @@ fn panic_violation(phase: &str, p: &PanicInfo, what: &str, kinds: &str, roles: &
     }
 }
 
+/// SQL verb (or API name) of a step: the `where` label of trapped hangs / aborts.
+fn verb_of(op: &str) -> String {
+    if let Some(api) = op.strip_prefix('@') {
+        return format!("Database::{}", api);
+    }
+    let mut it = op.split_whitespace();
+    let a = it.next().unwrap_or("");
+    let b = it.next().unwrap_or("");
+    if a.eq_ignore_ascii_case("PRAGMA") || b.eq_ignore_ascii_case("COUNT(*)") {
+        format!("{} {}", a, b)
+    } else {
+        a.to_string()
+    }
+}
+
 fn run_db(inp: DbInput) -> RunOutcome {
     let mut out = RunOutcome::default();
     out.count("runs.db", 1);
     let root = scratch_root();
     let mut log = Log { lines: vec![] };
-    let built = match dbgen::run_build(&inp.build, &root) {
+    crate::trap::enter_build(BUILD_TIMEOUT_S);
+    let built = dbgen::run_build(&inp.build, &root);
+    crate::trap::idle();
+    let built = match built {
         Ok(b) => b,
         Err(e) => {
             // creating a fresh database failed: not a C23 matter, but nothing was explored
@@ -303,6 +340,9 @@ fn run_db(inp: DbInput) -> RunOutcome {
     };
 
     let dbdir = built.db.clone();
+    let case_json = serde_json::to_vec(&db_case(&inp.build, &faults, &inp.steps, inp.env_seed, None)).unwrap_or_default();
+    crate::trap::set_case(&case_json);
+    crate::trap::set_faults_role(&kinds, &roles);
     for (i, step) in inp.steps.iter().enumerate() {
         if dead || panics >= MAX_PANICS_PER_RUN {
             break;
@@ -312,6 +352,9 @@ fn run_db(inp: DbInput) -> RunOutcome {
         if step.op == "@reopen" {
             if let Some(db) = handle.take() {
                 mark("drop before reopen");
+                crate::trap::set_phase("close");
+                crate::trap::set_where("drop(Database)");
+                crate::trap::enter_step(step_timeout_s());
                 if let Err(p) = guarded(move || drop(db)) {
                     panics += 1;
                     record_panic("close", &p, "drop(Database)", &mut out, &mut violations, &mut harness_error);
@@ -321,6 +364,9 @@ fn run_db(inp: DbInput) -> RunOutcome {
         if handle.is_none() && step.op != "@close" {
             let ophase = if first_open_done { if step.op == "@reopen" { "reopen" } else { "open" } } else { "open" };
             mark(&format!("Database::open ({})", ophase));
+            crate::trap::set_phase(ophase);
+            crate::trap::set_where("Database::open");
+            crate::trap::enter_step(step_timeout_s());
             let r = guarded(|| turdb::Database::open(&dbdir));
             let first = !first_open_done;
             first_open_done = true;
@@ -338,6 +384,9 @@ fn run_db(inp: DbInput) -> RunOutcome {
                     out.count(&format!("phase.{}.err", ophase), 1);
                     if first {
                         out.count("open.err", 1);
+                        for ff in &faults {
+                            out.count(&format!("open.err.by.{}.{}", role_of(&ff.file), ff.fault.kind()), 1);
+                        }
                     }
                     log.push(format!("step {} Database::open err", i));
                     let msg: String = format!("{:#}", e).chars().take(160).collect();
@@ -363,6 +412,9 @@ fn run_db(inp: DbInput) -> RunOutcome {
         }
         let opname: String = step.op.chars().take(70).collect();
         mark(&format!("{} {}", phase, opname));
+        crate::trap::set_phase(phase);
+        crate::trap::set_where(&verb_of(&step.op));
+        crate::trap::enter_step(step_timeout_s());
         let res: Result<String, PanicInfo> = match step.op.as_str() {
             "@close" => match handle.take() {
                 Some(db) => {
@@ -410,6 +462,9 @@ fn run_db(inp: DbInput) -> RunOutcome {
                 // the handle's state is unknown after a panic: drop it, the next step reopens
                 if let Some(db) = handle.take() {
                     mark("drop after panic");
+                    crate::trap::set_phase("close");
+                    crate::trap::set_where("drop(Database) after a panic");
+                    crate::trap::enter_step(step_timeout_s());
                     if let Err(p2) = guarded(move || drop(db)) {
                         panics += 1;
                         record_panic("close", &p2, "drop(Database) after a panic", &mut out, &mut violations, &mut harness_error);
@@ -420,10 +475,14 @@ fn run_db(inp: DbInput) -> RunOutcome {
     }
     if let Some(db) = handle.take() {
         mark("final drop");
+        crate::trap::set_phase("close");
+        crate::trap::set_where("drop(Database)");
+        crate::trap::enter_step(step_timeout_s());
         if let Err(p) = guarded(move || drop(db)) {
             record_panic("close", &p, "drop(Database)", &mut out, &mut violations, &mut harness_error);
         }
     }
+    crate::trap::idle();
     drop(record_panic);
     out.violations = violations;
     out.harness_error = harness_error;
@@ -465,7 +524,19 @@ fn run_dec(items: &[Item], env_seed: u64, focus: Option<&str>, mut out: RunOutco
     let mut any_effective = false;
     let mut fp = 0u64;
     for (i, it) in items.iter().enumerate() {
+        let item_json = serde_json::to_vec(&dec_case(std::slice::from_ref(it), env_seed, None)).unwrap_or_default();
+        crate::trap::set_case(&item_json);
+        crate::trap::set_phase(&format!("decoder:{}", it.decoder));
+        crate::trap::set_where("start");
+        {
+            let ks: BTreeSet<&str> = it.faults.iter().map(|f| f.kind()).collect();
+            crate::trap::set_faults_role(&ks.into_iter().collect::<Vec<_>>().join("+"), "object");
+        }
+        crate::trap::enter_step(step_timeout_s());
+        let ti = real_ms();
         let r = decoders::run_item(it, &root);
+        crate::trap::idle();
+        let _ = ti;
         out.count("dec.items", 1);
         out.count(&format!("dec.{}.items", it.decoder), 1);
         out.count(&format!("dec.{}.calls", it.decoder), r.calls);
@@ -499,6 +570,25 @@ fn run_dec(items: &[Item], env_seed: u64, focus: Option<&str>, mut out: RunOutco
         }
         for (label, p) in &r.panics {
             out.states.push(fnv1a(p.site.as_bytes()));
+            // several faults: is one of them alone enough for this site? (cheap, in-process)
+            let mut it_min: Item = it.clone();
+            if it.faults.len() > 1 && !guard::is_harness_site(&p.site) {
+                for f in &it.faults {
+                    let mut single = it.clone();
+                    single.faults = vec![f.clone()];
+                    crate::trap::set_case(&item_json);
+                    crate::trap::enter_step(step_timeout_s());
+                    let r1 = decoders::run_item(&single, &root);
+                    crate::trap::idle();
+                    if r1.panics.iter().any(|q| q.1.site == p.site) {
+                        it_min = single;
+                        out.count("dec.reduced_to_single_fault", 1);
+                        break;
+                    }
+                }
+            }
+            let it = &it_min;
+            let ftxt = serde_json::to_string(&it.faults).unwrap_or_default();
             if guard::is_harness_site(&p.site) {
                 out.harness_error = Some(format!("panic inside the harness at {}: {}", p.site, p.msg));
                 continue;
@@ -556,7 +646,7 @@ fn seeded(profile: &str, seed: u64, run: u64, tier: Tier) -> Seeded {
     let part_db = match part_of(profile) {
         "db" => true,
         "dec" => false,
-        _ => rng.fork("part").chance(13, 20),
+        _ => rng.fork("part").chance(4, 5),
     };
     let scale = if !part_db {
         1
@@ -571,7 +661,17 @@ fn seeded(profile: &str, seed: u64, run: u64, tier: Tier) -> Seeded {
 
 fn dec_items_for_seed(s: &Seeded, tier: Tier, out: &mut RunOutcome, log: &mut Log) -> Result<Vec<Item>, String> {
     let root = scratch_root();
-    let built = dbgen::run_build(&s.gen.build, &root)?;
+    // valid-input work (build, harvest, TurDB's own builders): a hang or abort here is not C23's
+    crate::trap::enter_build(BUILD_TIMEOUT_S);
+    let r = dec_items_inner(s, tier, out, log, &root);
+    crate::trap::idle();
+    r
+}
+
+fn dec_items_inner(s: &Seeded, tier: Tier, out: &mut RunOutcome, log: &mut Log, root: &Path) -> Result<Vec<Item>, String> {
+    let t0 = real_ms();
+    let built = dbgen::run_build(&s.gen.build, root)?;
+    out.count("time.build_ms", real_ms() - t0);
     for l in &built.transcript {
         log.push(format!("build {}", l));
     }
@@ -579,6 +679,7 @@ fn dec_items_for_seed(s: &Seeded, tier: Tier, out: &mut RunOutcome, log: &mut Lo
     if !built.build_panics.is_empty() {
         out.count("build.panic", 1);
     }
+    let t1 = real_ms();
     let h = decoders::harvest(&built.db, &s.gen.tables);
     out.count("harvest.leaf_pages", h.leaf_pages.len() as u64);
     out.count("harvest.interior_pages", h.interior_pages.len() as u64);
@@ -586,8 +687,11 @@ fn dec_items_for_seed(s: &Seeded, tier: Tier, out: &mut RunOutcome, log: &mut Lo
     out.count("harvest.index_keys", h.index_keys.len() as u64);
     out.count("harvest.wal_segment", h.wal_segment.is_some() as u64);
     out.count("harvest.small_files", h.small_files.len() as u64);
-    let n = if tier == Tier::Thorough { 260 } else { 160 };
-    let items = decoders::gen_items(&mut s.rng.fork("items"), &h, &root, n);
+    let n = if tier == Tier::Thorough { 200 } else { 120 };
+    let _ = t1;
+    let t2 = real_ms();
+    let items = decoders::gen_items(&mut s.rng.fork("items"), &h, root, n);
+    let _ = t2;
     let _ = std::fs::remove_dir_all(root.join("db"));
     let _ = std::fs::remove_dir_all(root.join("old"));
     Ok(items)
@@ -610,14 +714,8 @@ pub fn explicit_case_of_seed(profile: &str, seed: u64, run: u64, tier: Tier) -> 
     }
 }
 
-impl Engine for CorruptSim {
-    fn name(&self) -> &'static str {
-        "corruptsim"
-    }
-
-    fn run_seeded(&self, profile: &str, seed: u64, run: u64, tier: Tier) -> RunOutcome {
-        let s = seeded(profile, seed, run, tier);
-        setup_child(s.env_seed);
+impl CorruptSim {
+    fn run_seeded_inner(&self, s: Seeded, tier: Tier) -> RunOutcome {
         if s.part_db {
             run_db(DbInput { build: s.gen.build.clone(), steps: s.gen.steps.clone(), faults: FaultSrc::Generate(s.rng.fork("faults")), env_seed: s.env_seed, focus: None, gen_only: false })
         } else {
@@ -635,7 +733,10 @@ impl Engine for CorruptSim {
         }
     }
 
-    fn run_case(&self, case: &Value) -> RunOutcome {
+}
+
+impl CorruptSim {
+    fn run_case_inner(&self, case: &Value) -> RunOutcome {
         let env_seed = case["env_seed"].as_u64().unwrap_or(1);
         let focus = focus_site(case);
         setup_child(env_seed);
@@ -666,6 +767,28 @@ impl Engine for CorruptSim {
             }
             other => RunOutcome { harness_error: Some(format!("unknown case part `{}`", other)), ..Default::default() },
         }
+    }
+}
+
+impl Engine for CorruptSim {
+    fn name(&self) -> &'static str {
+        "corruptsim"
+    }
+
+    fn run_seeded(&self, profile: &str, seed: u64, run: u64, tier: Tier) -> RunOutcome {
+        let t0 = real_ms();
+        let s = seeded(profile, seed, run, tier);
+        let t1 = real_ms();
+        setup_child(s.env_seed);
+        let t2 = real_ms();
+        let mut o = self.run_seeded_inner(s, tier);
+        let _ = (t1, t2);
+        o.count("time.total_ms", real_ms() - t0);
+        o
+    }
+
+    fn run_case(&self, case: &Value) -> RunOutcome {
+        self.run_case_inner(case)
     }
 
     fn shrink(&self, case: &Value) -> Vec<Value> {
